@@ -13,6 +13,12 @@ LEVEL = ('decides the blocking-clause mechanism: the clause ranges over every do
          'clauses rely on: no element skipped after swap_remove, nogoods deleted only when not a '
          'reason (B4/B5), implicit reasons imply their predicate (B6), the nogood propagator looks at '
          'exactly the watchers whose predicate became true and never drops an unvisited one (B7/B8). '
+         'Also runs the KERNEL BUNDLE (rule ids …K<n>): the kernel rules every verdict depends on — '
+         'predicate algebra, nogood watchers, minimisers, conflict-analysis tables, nogood deletion, '
+         'decision read-back, no-learning resolver, constraint builders, reified reasons — wherever '
+         'they are not already registered here under another id. Also runs the LIFE-CYCLE BUNDLE '
+         '(…L<n>): the typestate rules over arbitrary API sequences of C10 (usable root state after '
+         'every call, inert posting in inconsistent states, entry guards, stored-solution extent). '
          'Does not decide that the underlying solves are correct (C01/C02)')
 TECHNIQUE = "static analysis: callee-set / def-use / must-pass / symbolic table over rustc MIR"
 
@@ -213,3 +219,7 @@ def run(ctx, led):
         _C10.t_boundary(led_, rid_, ctx_, _C10.explore(ctx_.lib)) if hasattr(_C10, "t_boundary") else None
     if hasattr(_C10, "t_boundary"):
         run_rule(led, "B11", "every API function returns with the solver in a usable root state, so iteration after an assumption query starts from the model (shared with C10-T2/T3)", _b11, ctx)
+    from . import kernel as _kernel
+    _kernel.run_bundle(led, ctx, "B")
+    from . import kernel as _kernel2
+    _kernel2.run_lifecycle(led, ctx, "B")
